@@ -479,7 +479,7 @@ func TestVP_C12_race_goroutines(t *testing.T) {
 // moment (the shape that exposes a check-then-act window best).
 func TestVP_C12_race_tight(t *testing.T) {
 	c := kit.New(t, "C12", "deterministic loop (-race): per iteration a fresh nonce and 2..4 goroutines each requesting a different challenge once behind a barrier; exactly one may succeed; non-trivial = every iteration; distinct by iteration seed")
-	n := kit.N(3000, 600000)
+	n := kit.N(3000, 200000)
 	base := []byte(fmt.Sprintf("tight-%d", kit.Seed()))
 	privs := make([]Key, 4)
 	pubs := make([]Key, 4)
